@@ -557,3 +557,10 @@ def run(ctx, rep):
     # the image handed to log_abs_det_jacobian must be the image of the *current* value: torch's identity-keyed (x, y) cache must stay off
     from props import c11
     c11.check_transform_cache(ctx, rep, rule='C07.C')
+    # the increment (shift) transform: forward and inverse use the same (smooth) maximum — decided by C06.S, which is also C07's inverse clause
+    from props import c06
+    from sa.report import RuleProxy
+    try:
+        c06.check_shift(ctx, RuleProxy(rep, 'C07.I', 'shift::'))
+    except Unsupported as u:
+        rep.undecided('C07.I', 'shift::check_shift', '', str(u))
